@@ -1584,7 +1584,7 @@ class VM:
             return "[object Object]"
 
         def hasOwnProperty_fn(*args):
-            key = to_string(args[0]) if args else ""
+            key = to_string(args[0]) if args else "undefined"
             return obj.has(key)
 
         methods = {
@@ -1764,7 +1764,7 @@ class VM:
         """Create a bound RegExp method."""
 
         def test_fn(*args):
-            string = to_string(args[0]) if args else ""
+            string = to_string(args[0]) if args else "undefined"
             self._adopt_regex(re)
             try:
                 return re.test(string)
@@ -1774,7 +1774,7 @@ class VM:
                 raise JSRangeError("Regular expression too complex")
 
         def exec_fn(*args):
-            string = to_string(args[0]) if args else ""
+            string = to_string(args[0]) if args else "undefined"
             self._adopt_regex(re)
             try:
                 return re.exec(string)
@@ -1797,8 +1797,10 @@ class VM:
             return ",".join(str(arr.get_index(i)) for i in range(arr.length))
 
         def join_fn(*args):
-            separator = to_string(args[0]) if args else ","
-            return separator.join(str(arr.get_index(i)) for i in range(arr.length))
+            separator = "," if not args or args[0] is UNDEFINED else to_string(args[0])
+            return separator.join(
+                str(arr.get_index(i)) for i in range(arr.length)
+            )
 
         def subarray_fn(*args):
             begin = to_integer(args[0]) if len(args) > 0 else 0
@@ -2044,7 +2046,7 @@ class VM:
             return float("nan")
 
         def indexOf(*args):
-            search = to_string(args[0]) if args else ""
+            search = to_string(args[0]) if args else "undefined"
             start = to_integer(args[1]) if len(args) > 1 else 0
             # The position is clamped to the string; Python's find gives -1
             # for a start beyond the end even when searching for ""
@@ -2052,7 +2054,7 @@ class VM:
             return s.find(search, start)
 
         def lastIndexOf(*args):
-            search = to_string(args[0]) if args else ""
+            search = to_string(args[0]) if args else "undefined"
             end = to_integer(args[1], len(s)) if len(args) > 1 else len(s)
             # The position is clamped to the string (a negative number is not
             # relative to the end, as it would be for Python)
@@ -2175,25 +2177,25 @@ class VM:
             return s * count
 
         def startsWith(*args):
-            search = to_string(args[0]) if args else ""
+            search = to_string(args[0]) if args else "undefined"
             pos = to_integer(args[1]) if len(args) > 1 else 0
             pos = min(max(pos, 0), len(s))  # clamped, not relative to the end
             return s[pos:].startswith(search)
 
         def endsWith(*args):
-            search = to_string(args[0]) if args else ""
+            search = to_string(args[0]) if args else "undefined"
             length = to_integer(args[1], len(s)) if len(args) > 1 else len(s)
             length = min(max(length, 0), len(s))  # clamped, not relative to the end
             return s[:length].endswith(search)
 
         def includes(*args):
-            search = to_string(args[0]) if args else ""
+            search = to_string(args[0]) if args else "undefined"
             pos = to_integer(args[1]) if len(args) > 1 else 0
             pos = min(max(pos, 0), len(s))  # clamped, not relative to the end
             return search in s[pos:]
 
         def replace(*args):
-            pattern = args[0] if args else ""
+            pattern = args[0] if args else UNDEFINED
             replacement = to_string(args[1]) if len(args) > 1 else "undefined"
 
             if isinstance(pattern, JSRegExp):
@@ -2268,7 +2270,7 @@ class VM:
                 return s
 
         def replaceAll(*args):
-            pattern = args[0] if args else ""
+            pattern = args[0] if args else UNDEFINED
             replacement = to_string(args[1]) if len(args) > 1 else "undefined"
 
             if isinstance(pattern, JSRegExp):
@@ -2290,9 +2292,9 @@ class VM:
                 return s.replace(search, replacement)
 
         def match(*args):
-            pattern = args[0] if args else None
-            if pattern is None:
-                # Match empty string
+            pattern = args[0] if args else UNDEFINED
+            if pattern is UNDEFINED:
+                # An undefined pattern is the empty regular expression
                 arr = JSArray()
                 arr._elements = [""]
                 arr.set("index", 0)
@@ -2365,9 +2367,9 @@ class VM:
                 raise JSRangeError("Regular expression too complex")
 
         def search(*args):
-            pattern = args[0] if args else None
-            if pattern is None:
-                return 0  # Match empty string at start
+            pattern = args[0] if args else UNDEFINED
+            if pattern is UNDEFINED:
+                return 0  # the empty regular expression matches at the start
 
             from .regex import RegExp as InternalRegExp
 
